@@ -309,6 +309,8 @@ func (d *D) bin(flavour string) string {
 		return filepath.Join(verifDir, "build", "vh-race")
 	case "noinline":
 		return filepath.Join(verifDir, "build", "vh-noinline")
+	case "go126", "go126noinline":
+		return filepath.Join(verifDir, "build", "vh-"+flavour)
 	}
 	return filepath.Join(verifDir, "build", "vh")
 }
